@@ -311,8 +311,13 @@ def gen_vecquad(r, sp):
         if n >= 2 and r.random() < 0.5:
             Q[0][1] = Q[1][0] = 0.5
         e = ["quad", vec, Q]
-    elif k < 0.9:
+    elif k < 0.8:
         e = ["dot", ["vshift", vec, -r.choice([0.5, 1.0, 2.0])], ["vshift", vec, -1.0]]
+    elif k < 0.9:
+        # squared distance to a point, with the point written first: (c - v).(c - v)
+        c = [r.choice(TARGETS) for _ in range(n)]
+        inner = ["vrsub", c, vec if r.random() < 0.7 else ["vscale", vec, 2.0]]
+        e = ["dot", inner, inner]
     else:
         Q = [[0.0] * n for _ in range(n)]
         for i in range(n):
@@ -427,6 +432,11 @@ def gen_nl_con(r, sp, names):
         e = gen_bilinear(r, sp)
         if e is not None:
             return {"k": "s", "lhs": e, "sense": r.choice([">=", "<="]), "rhs": ["num", r.choice([0.5, 1.0, 2.0])]}
+    vhs = vec_handles(sp["vars"])
+    if vhs and r.random() < 0.12:
+        vec, vn = r.choice(vhs)
+        c = [r.choice(TARGETS) for _ in vn]
+        return {"k": "s", "lhs": ["norm", ["vrsub", c, vec], r.choice([1, 2, 2])], "sense": r.choice([">=", "<=", "<="]), "rhs": ["num", r.choice([0.5, 1.0, 2.0])]}
     if r.random() < 0.3:
         # a constraint that is undefined (NaN) or infinite on part of the box
         f = r.choice(["log", "sqrt", "log"])
@@ -952,6 +962,13 @@ def gen_c12_pool(r, deep=0):
     terms += [["neg", p] for p in r.sample(pl, min(len(pl), r.choice([1, 2])))]
     ex["gd"] = ["chain", "+", terms + [["num", 0.0]] * deep]
     cons["cd"] = {"k": "s", "lhs": ["chain", "+", terms + [["num", 0.0]] * deep], "sense": ">=", "rhs": ["num", r.choice([-2.0, 0.0, 0.5])]}
+    if r.random() < 0.3:
+        # one array-valued Parameter (scenario data evaluated in one vectorised call); only in
+        # expressions that are evaluated / compiled, never in an objective or constraint
+        na = r.choice([2, 3])
+        sp["params"].append({"kind": "array", "name": "pa", "n": na, "values": [r.choice(PGRID) for _ in range(na)]})
+        ex["ga0"] = ["*", ["param", "pa"], L(core[0])]
+        ex["ga1"] = ["+", ["*", L(core[-1]), ["param", "pa"]], ["**", L(core[0]), ["num", 2]]]
     # constraints without any decision variable: their truth changes with Parameter.set alone
     pa, pb = r.choice(pl), r.choice(pl)
     cons["cp0"] = {"k": "s", "lhs": pa, "sense": r.choice([">=", "<="]), "rhs": pb if r.random() < 0.6 else ["num", r.choice(PGRID)]}
@@ -1057,6 +1074,9 @@ def gen_param_op(r, sp):
         dt = r.choice(sorted(TYPED_GRID))
         grid = TYPED_GRID[dt]
         tail = [dt]
+    if d["kind"] == "array":
+        vals = [r.choice(PGRID) for _ in range(d["n"])]
+        return ["param_set", 0, d["name"], vals] + (["alias"] if r.random() < 0.5 else [])
     if d["kind"] == "scalar":
         return ["param_set", 0, d["name"], r.choice(grid)] + tail
     if r.random() < 0.5:
@@ -1799,6 +1819,20 @@ def gen_c06_scaling(r):
     big = r.choice([1e10, 5e10, 1e11])
     tiny = r.choice([1e-10, 2e-10, 5e-11])
     need = r.choice([0.9, 0.5, 0.99])
+    if r.random() < 0.4:
+        # the same effect next to a large right-hand side: tiny*a + b <= 1e9 with a up to 1e10; the
+        # dropped entry is worth 1.0 .. 10.0, i.e. 1e-9 of the row's magnitude -- far above rounding
+        # noise (1e-7 here), far below anything "relative to the row" with a generous factor
+        cap = r.choice([1e9, 2e9, 5e8])
+        sp = {"name": "sc2", "vars": [{"kind": "scalar", "name": "a", "lb": 0.0, "ub": big, "domain": "continuous"},
+                                      {"kind": "scalar", "name": "b", "lb": 0.0, "ub": None, "domain": "continuous"}],
+              "params": [], "exprs": {"o": ["+", ["var", "a"], ["var", "b"]], "o2": ["+", ["*", ["num", 2.0], ["var", "b"]], ["var", "a"]]},
+              "cons": {"c": {"k": "s", "lhs": ["+", ["*", ["num", tiny], ["var", "a"]], ["var", "b"]], "sense": "<=", "rhs": ["num", cap]}},
+              "expr_order": ["o", "o2"], "con_order": ["c"]}
+        ops = [["new_model", 0, sp], ["maximize", 0, r.choice(["o", "o2"])], ["subject_to", 0, "c"]]
+        for _ in range(r.choice([1, 2])):
+            ops.append(["solve", 0, {"method": r.choice(["auto", "linprog", "highs-ds", "highs-ipm", "highs"])}])
+        return {"knobs": dict(DEFAULT_KNOBS), "ops": ops}
     sp = {"name": "sc", "vars": [{"kind": "scalar", "name": "x", "lb": big, "ub": 2 * big, "domain": "continuous"},
                                  {"kind": "scalar", "name": "y", "lb": 0.0, "ub": 1.0, "domain": "continuous"}],
           "params": [], "exprs": {"o": ["var", "y"], "o2": ["+", ["var", "y"], ["*", ["num", 1e-12], ["var", "x"]]]},
@@ -2559,7 +2593,7 @@ def rename_case(case, style):
                 expr(e)
         elif t in ("vscale", "vshift", "vpow"):
             vec(v[1])
-        elif t in ("matvec", "vfn"):
+        elif t in ("matvec", "vfn", "vrsub", "vrdiv"):
             vec(v[2])
         elif t == "mvprod":
             v[1] = mp.get(v[1], v[1])
